@@ -40,7 +40,13 @@ func (rw *rewriter) wrap(loc ast.Expr, c ctxKind, at ast.Node) ast.Expr {
 		return loc
 	}
 	rw.count("access-" + fn)
-	return &ast.StarExpr{X: rw.call(fn, &ast.UnaryExpr{Op: token.AND, X: loc}, rw.site(at))}
+	var site ast.Expr
+	if oe, ok := at.(ast.Expr); ok {
+		site = rw.siteExpr(at, oe)
+	} else {
+		site = rw.site(at)
+	}
+	return &ast.StarExpr{X: rw.call(fn, &ast.UnaryExpr{Op: token.AND, X: loc}, site)}
 }
 
 // sharedVar reports whether an identifier denotes a package-level variable of
